@@ -24,6 +24,7 @@ import YalafiVerif.Proofs.Lines
 import YalafiVerif.Properties.PlainVanishStmt
 import YalafiVerif.Properties.PlainMixStmt
 import YalafiVerif.Properties.PlainMix2Stmt
+import YalafiVerif.Properties.PlainMix3Stmt
 import YalafiVerif.Properties.PlainParaStmt
 import YalafiVerif.Properties.PlainParEnvStmt
 namespace Yalafi
